@@ -212,7 +212,7 @@ def facts : Facts := {
   typedAllocSites := 6
   decoderSkeleton := "17ca3b1513b97227a6799a0a"
   encoderSkeleton := "5cbdaefa998ed87261c39697"
-  resolverSkeleton := "7421c925da242e28e65a020f"
+  resolverSkeleton := "dc943200c8dda6024f8f48fc"
   descTableSkeleton := "cbfebd4eaff63fd247cc0a76"
   topLevelUsesLimit := true
   createLocksRechecksBuildsPublishes := true
@@ -1075,6 +1075,24 @@ def facts : Facts := {
 --   return 
 --   call unsafe.Pointer
 --   call v.UnsafeAddr
+-- resolver / isident0
+--   return c == '_' || c >= 'a' && c <= 'z' || c >= 'A' && c <= 'Z'
+-- resolver / isident
+--   return isident0(c) || c >= '0' && c <= '9'
+--   call isident0
+-- resolver / isKeyword
+--   range strings.Fields(keywordTab[tag])
+--   call strings.Fields
+--   if kw == tv => return
+--   return true
+--   return false
+-- resolver / isTypeKeyword
+--   range keywordTab
+--   if kw != "" && isKeyword(Tag(tag), tv) => return
+--   call isKeyword
+--   call Tag
+--   return true
+--   return tv == "list" || tv == "set"
 -- descTable
 --   type structDesc: structDesc struct { rt reflect.Type // always Kind() == reflect.Struct // tmp var for direct type, need to copy to heap before using unsafe.Pointer rvPool sync.Pool maxID uint16 // protect fieldIdx fieldIdx []int // directly maps field id to Field for performance fields []*tField hasInitFunc bool // true if reflect.Type implements iInitDefault initFunc iInitDefault // need to change the data pointer when calling hasUnknownFields bool // for the _unknownFields feature unknownFieldsOffset uintptr fixedLenFieldSize int // sum of f.EncodedSize() > 0 varLenFields []int // maps to fields. list of fields that f.EncodedSize() <= 0 requiredFieldIDs []uint16 }
 --   type tField: tField struct { ID uint16 Offset uintptr Type *tType Name string // Go field name, for the required-field error Spec defs.Requiredness Default unsafe.Pointer NoCopy bool CanSkipEncodeIfNil bool CanSkipIfDefault bool }
